@@ -34,6 +34,21 @@ func main() {
 			os.Exit(usage())
 		}
 		os.Exit(replayMain(os.Args[2]))
+	case "dethash":
+		// dethash <Cxx> <tier> <seed> <lo> <hi>: one line per scenario with the hash of its full event log
+		if len(os.Args) < 7 {
+			os.Exit(usage())
+		}
+		var seed uint64
+		var lo, hi int
+		fmt.Sscan(os.Args[4], &seed)
+		fmt.Sscan(os.Args[5], &lo)
+		fmt.Sscan(os.Args[6], &hi)
+		installSimRand()
+		for i := lo; i < hi; i++ {
+			res := runScenario(genScenario(props[os.Args[2]], seed, i, os.Args[3]))
+			fmt.Printf("%s seed=%d index=%d log=%016x abs=%016x events=%d viol=%d\n", os.Args[2], seed, i, traceHash(res), res.Abs, res.Events, len(res.Viol))
+		}
 	case "report":
 		os.Exit(reportMain(os.Args[2:]))
 	case "selftest":
